@@ -84,6 +84,11 @@ func (c *declChecker) check() []error {
 			for _, argArg := range descrAtom.Args[1:] {
 				c.checkStringConstant(argArg)
 			}
+		case ast.DescrMode:
+			// A mode has one entry per argument; rule checking indexes arguments by mode position.
+			if len(descrAtom.Args) != len(p.Args) {
+				c.errs = append(c.errs, fmt.Errorf("mode atom %v must have %d args", descrAtom, len(p.Args)))
+			}
 		default:
 			// We ignore unknown descr atoms.
 		}
